@@ -393,7 +393,7 @@ def run_property(pid, tier, seed, only=None, keep=False, nodiff=False):
         ev['coverage'] = dict(
             states=max(1, tot('paths')), transitions=max(1, tot('queries')), traces_validated_against_impl=replayed + diff_ok, samples=samples,
             evaluations=max(1, tot('paths')), distinct_nontrivial=tot('obl_paths'),
-            rule='one evaluation = one feasible control-flow path of the harness through the real IR (distinct decision trace); non-trivial = the path discharged at least one solver-checked obligation',
+            rule='one evaluation = one feasible control-flow path of the harness through the real IR (distinct decision trace); non-trivial = the path ran to a checked end of the harness (discharged at least one solver-checked obligation or passed its concrete oracle comparisons)',
             obligations=tot('obligations'), discharged=tot('obligations') - sum(len(per[h.name]['findings']) for h in hs),
             solver_s=round(tot('solver_s'), 2), ir_instructions_executed=tot('steps'),
             functions_encoded=[demangle_short(f) for f in funcs][:400], functions_encoded_count=len(funcs),
